@@ -579,8 +579,24 @@ func (t *c03) dhcp(r *rand.Rand) {
 	}
 	po := v.ParseOptions()
 	for k, val := range want {
-		if !bytes.Equal(po[packet.DHCP4OptionCode(k)], val) {
-			t.viol("encode:DHCP4:option-value(view)", fmt.Sprintf("ParseOptions()[%d] = % x, supplied % x", k, po[packet.DHCP4OptionCode(k)], val), cs)
+		got, present := po[packet.DHCP4OptionCode(k)]
+		if !present {
+			// an option with an empty value (Rapid Commit, or any code the caller mapped to an empty slice) is on the wire
+			// as "code, 0": it is an option like any other and the decoder must list it
+			t.viol("encode:DHCP4:option-missing(view)", fmt.Sprintf("option %d (value % x, %d bytes) was supplied and is on the wire, ParseOptions() does not list it", k, val, len(val)), cs)
+			return
+		}
+		if !bytes.Equal(got, val) {
+			t.viol("encode:DHCP4:option-value(view)", fmt.Sprintf("ParseOptions()[%d] = % x, supplied % x", k, got, val), cs)
+			return
+		}
+		if len(val) == 0 {
+			c.Obs("dhcp_empty_options_round_trips", 1)
+		}
+	}
+	for k := range po {
+		if _, ok := want[byte(k)]; !ok && k != 53 {
+			t.viol("encode:DHCP4:option-extra(view)", fmt.Sprintf("ParseOptions() lists option %d which was not supplied (supplied: %d options)", k, len(want)), cs)
 			return
 		}
 	}
